@@ -207,23 +207,22 @@ def run(rep: vk.Report):
         if not V or len(V) > 5:
             continue
         names = [v.name for v in V]
-        # everything compiled / derived BEFORE any update
-        C._compile_cached.cache_clear()
+        # everything compiled / derived BEFORE any update (the process-wide caches keep whatever earlier models - with their own
+        # equal-named Parameters - left in them)
         f = C.compile_expression(e, V)
         # the explicit-stack builders (used for deep trees) forced from outside, also BEFORE any update
         oc, oa = C._RECURSION_THRESHOLD, AD._RECURSION_THRESHOLD
         try:
             C._RECURSION_THRESHOLD = 0
             AD._RECURSION_THRESHOLD = 0
-            C._compile_cached.cache_clear()
-            f_it = C.compile_expression(e, V)
-            gtrees_it = [AD.gradient(e, v) for v in V]
-            jf_it = AD.compile_jacobian([e], V)
+            with common.uncached(C, "_compile_cached"):
+                f_it = C.compile_expression(e, V)
+                gtrees_it = [AD.gradient(e, v) for v in V]
+                jf_it = AD.compile_jacobian([e], V)
         except Exception:
             f_it, gtrees_it, jf_it = None, None, None
         finally:
             C._RECURSION_THRESHOLD, AD._RECURSION_THRESHOLD = oc, oa
-            C._compile_cached.cache_clear()
         gf = C.compile_gradient(e, V)
         jf = AD.compile_jacobian([e], V)
         hf = AD.compile_hessian(e, V) if len(V) <= 3 else None
